@@ -27,7 +27,7 @@ const char *g_probe_name[MAXPROBE];
 static int nprobe;
 
 static const world_t *worlds[] = {
-    &world_lists,
+    &world_lists, &world_trees, &world_heap,
 };
 #define NWORLDS (sizeof(worlds) / sizeof(worlds[0]))
 
